@@ -1,0 +1,203 @@
+//go:build verif
+
+// Verification hooks (build tag "verif"). Add-only: metadata marshalling as plain field
+// tuples, and the real segment writers / readers of both underlays over injected connections.
+
+package protocol
+
+import (
+	"fmt"
+	"net"
+
+	"github.com/enfein/mieru/v3/pkg/appctl/appctlpb"
+	"github.com/enfein/mieru/v3/pkg/cipher"
+	"github.com/enfein/mieru/v3/pkg/common"
+)
+
+type VerifSession struct {
+	Protocol   uint8
+	Timestamp  uint32
+	SessionID  uint32
+	Seq        uint32
+	StatusCode uint8
+	PayloadLen uint16
+	SuffixLen  uint8
+}
+
+type VerifDataAck struct {
+	Protocol               uint8
+	LowEntropyMode         uint8
+	Timestamp              uint32
+	SessionID              uint32
+	Seq                    uint32
+	UnAckSeq               uint32
+	WindowSize             uint16
+	Fragment               uint8
+	PrefixLen              uint8
+	PayloadLen             uint16
+	SuffixLen              uint8
+	LowEntropyMask         uint32
+	ExtractedPayloadLen    uint16
+	LowEntropyMaskRotation uint8
+}
+
+func (v VerifSession) toStruct() *sessionStruct {
+	return &sessionStruct{
+		baseStruct: baseStruct{protocol: v.Protocol, timestamp: v.Timestamp},
+		sessionID:  v.SessionID, seq: v.Seq, statusCode: v.StatusCode, payloadLen: v.PayloadLen, suffixLen: v.SuffixLen,
+	}
+}
+
+func verifFromSession(ss *sessionStruct) VerifSession {
+	return VerifSession{Protocol: ss.protocol, Timestamp: ss.timestamp, SessionID: ss.sessionID, Seq: ss.seq,
+		StatusCode: ss.statusCode, PayloadLen: ss.payloadLen, SuffixLen: ss.suffixLen}
+}
+
+func (v VerifDataAck) toStruct() *dataAckStruct {
+	return &dataAckStruct{
+		baseStruct:     baseStruct{protocol: v.Protocol, timestamp: v.Timestamp},
+		lowEntropyMode: v.LowEntropyMode, sessionID: v.SessionID, seq: v.Seq, unAckSeq: v.UnAckSeq,
+		windowSize: v.WindowSize, fragment: v.Fragment, prefixLen: v.PrefixLen, payloadLen: v.PayloadLen,
+		suffixLen: v.SuffixLen, lowEntropyMask: v.LowEntropyMask, extractedPayloadLen: v.ExtractedPayloadLen,
+		lowEntropyMaskRotation: v.LowEntropyMaskRotation,
+	}
+}
+
+func verifFromDataAck(d *dataAckStruct) VerifDataAck {
+	return VerifDataAck{Protocol: d.protocol, LowEntropyMode: d.lowEntropyMode, Timestamp: d.timestamp, SessionID: d.sessionID,
+		Seq: d.seq, UnAckSeq: d.unAckSeq, WindowSize: d.windowSize, Fragment: d.fragment, PrefixLen: d.prefixLen,
+		PayloadLen: d.payloadLen, SuffixLen: d.suffixLen, LowEntropyMask: d.lowEntropyMask,
+		ExtractedPayloadLen: d.extractedPayloadLen, LowEntropyMaskRotation: d.lowEntropyMaskRotation}
+}
+
+// VerifMarshalSession runs the real Marshal (which stamps the current minute) and returns the
+// bytes together with the timestamp it stamped.
+func VerifMarshalSession(v VerifSession) ([]byte, uint32) {
+	ss := v.toStruct()
+	b := ss.Marshal()
+	return b, ss.timestamp
+}
+
+func VerifUnmarshalSession(b []byte) (VerifSession, error) {
+	ss := &sessionStruct{}
+	if err := ss.Unmarshal(b); err != nil {
+		return VerifSession{}, err
+	}
+	return verifFromSession(ss), nil
+}
+
+func VerifMarshalDataAck(v VerifDataAck) ([]byte, uint32) {
+	das := v.toStruct()
+	b := das.Marshal()
+	return b, das.timestamp
+}
+
+func VerifUnmarshalDataAck(b []byte) (VerifDataAck, error) {
+	das := &dataAckStruct{}
+	if err := das.Unmarshal(b); err != nil {
+		return VerifDataAck{}, err
+	}
+	return verifFromDataAck(das), nil
+}
+
+// VerifSegment is a segment as plain data: exactly one of Session / DataAck is set.
+type VerifSegment struct {
+	Session *VerifSession
+	DataAck *VerifDataAck
+	Payload []byte
+}
+
+func (v VerifSegment) toSegment(transport common.TransportProtocol) (*segment, error) {
+	switch {
+	case v.Session != nil && v.DataAck == nil:
+		return &segment{metadata: v.Session.toStruct(), payload: v.Payload, transport: transport}, nil
+	case v.DataAck != nil && v.Session == nil:
+		return &segment{metadata: v.DataAck.toStruct(), payload: v.Payload, transport: transport}, nil
+	}
+	return nil, fmt.Errorf("exactly one of Session and DataAck must be set")
+}
+
+func verifFromSegment(seg *segment) VerifSegment {
+	v := VerifSegment{Payload: seg.payload}
+	if ss, ok := toSessionStruct(seg.metadata); ok {
+		s := verifFromSession(ss)
+		v.Session = &s
+	} else if das, ok := toDataAckStruct(seg.metadata); ok {
+		d := verifFromDataAck(das)
+		v.DataAck = &d
+	}
+	return v
+}
+
+// VerifStreamEnd is a client-mode StreamUnderlay over an injected connection.
+type VerifStreamEnd struct{ u *StreamUnderlay }
+
+// VerifNewStreamEnd wraps conn. block must be stateful (implicit nonce mode).
+func VerifNewStreamEnd(conn net.Conn, block cipher.BlockCipher, mtu int, pattern *appctlpb.TrafficPattern) *VerifStreamEnd {
+	return &VerifStreamEnd{u: &StreamUnderlay{
+		baseUnderlay: *newBaseUnderlay(true, mtu, pattern),
+		conn:         conn,
+		block:        block,
+	}}
+}
+
+// WriteSegment runs the real StreamUnderlay.writeOneSegment and returns the metadata as sent
+// (padding lengths, timestamp and low entropy mask are filled in by the real code).
+func (e *VerifStreamEnd) WriteSegment(v VerifSegment) (VerifSegment, error) {
+	seg, err := v.toSegment(common.StreamTransport)
+	if err != nil {
+		return VerifSegment{}, err
+	}
+	if err := e.u.writeOneSegment(seg); err != nil {
+		return VerifSegment{}, err
+	}
+	return verifFromSegment(seg), nil
+}
+
+// ReadSegment runs the real StreamUnderlay.readOneSegment. A nil segment with nil error (read
+// timeout without data) is reported as an error.
+func (e *VerifStreamEnd) ReadSegment() (VerifSegment, error) {
+	seg, err := e.u.readOneSegment()
+	if err != nil {
+		return VerifSegment{}, err
+	}
+	if seg == nil {
+		return VerifSegment{}, fmt.Errorf("no segment")
+	}
+	return verifFromSegment(seg), nil
+}
+
+// VerifPacketEnd is a client-mode PacketUnderlay over an injected packet connection.
+type VerifPacketEnd struct{ u *PacketUnderlay }
+
+// VerifNewPacketEnd wraps conn. block must be stateless. Only packets from serverAddr are read.
+func VerifNewPacketEnd(conn net.PacketConn, serverAddr net.Addr, block cipher.BlockCipher, mtu int, pattern *appctlpb.TrafficPattern) *VerifPacketEnd {
+	return &VerifPacketEnd{u: &PacketUnderlay{
+		baseUnderlay: *newBaseUnderlay(true, mtu, pattern),
+		conn:         conn,
+		serverAddr:   serverAddr,
+		block:        block,
+	}}
+}
+
+func (e *VerifPacketEnd) WriteSegment(v VerifSegment) (VerifSegment, error) {
+	seg, err := v.toSegment(common.PacketTransport)
+	if err != nil {
+		return VerifSegment{}, err
+	}
+	if err := e.u.writeOneSegment(seg, e.u.serverAddr); err != nil {
+		return VerifSegment{}, err
+	}
+	return verifFromSegment(seg), nil
+}
+
+func (e *VerifPacketEnd) ReadSegment() (VerifSegment, error) {
+	seg, _, err := e.u.readOneSegment()
+	if err != nil {
+		return VerifSegment{}, err
+	}
+	if seg == nil {
+		return VerifSegment{}, fmt.Errorf("no segment")
+	}
+	return verifFromSegment(seg), nil
+}
